@@ -1260,16 +1260,26 @@ Proof.
   - apply Hx; lia.
 Qed.
 
+Lemma astype_fresh l dt s s1 a : astype l dt s = (s1, Ok a) -> fresh_arr s s1 a.
+Proof.
+  unfold astype, bind. destruct (arr_info l s) as [s' [i|e]] eqn:E; [|inversion 1].
+  pose proof (arr_info_inv _ _ _ _ E). subst s'. rewrite new_arr_eq. inversion 1; subst.
+  exists (next s), (a_shape i), KPlain, dt, (a_data i). cbn [mem next]. rewrite upd_same.
+  rewrite upd_other by lia. rewrite upd_same. repeat split; auto; lia.
+Qed.
+
+(* the converted operand is ALWAYS a fresh array (a time-object operand is copied since c3a0f82) *)
 Lemma ut_convert_inv cf v s s1 w : ut_convert cf v s = (s1, Ok w) ->
-  ext [] s s1 /\ (fresh_arr s s1 w \/ (v = PRef w /\ s1 = s)).
+  ext [] s s1 /\ fresh_arr s s1 w.
 Proof.
   intros H. split.
   { pose proof (ut_convert_pure cf v s) as P. rewrite H in P. exact P. }
   revert H. unfold ut_convert. unfold bind at 1.
   destruct (has_cf v s) as [sa [h|]] eqn:Eh; [|inversion 1].
   apply has_cf_inv in Eh. subst sa.
-  destruct h as [z|]; destruct v as [x|x|l]; try (intros H; left; eapply convert_rest_inv; exact H).
-  inversion 1; subst. right. auto.
+  destruct h as [z|]; destruct v as [x|x|l]; try (intros H; eapply convert_rest_inv; exact H).
+  unfold bind. destruct (arr_info l s) as [s' [i|e]] eqn:E; [|inversion 1].
+  pose proof (arr_info_inv _ _ _ _ E). subst s'. apply astype_fresh.
 Qed.
 
 Lemma scalar_of_inv l s s1 x : scalar_of l s = (s1, Ok x) -> s1 = s.
@@ -1341,11 +1351,10 @@ Qed.
 (* FAILURE ATOMICITY of UniformTime += / -= : a failing call has written nothing *)
 Lemma ut_iop_failure_atomic sign self v s e b :
   wf s -> typed_axis s self b ->
-  (forall l, v = PRef l -> l <> self /\ forall bl sh k, mem s l = Some (CArr bl sh k) -> bl <> b) ->
   snd (ut_iop sign self v s) = Exn e -> ext [] s (fst (ut_iop sign self v s)).
 Proof.
   intros Hwf (sh & cf & t0 & si & dur & b0 & b1 & b2 & z0 & z1 & z2 & c0 & c1 & c2 &
-              Hself & Ht0 & Hsi & Hdur & N1 & N2 & N3 & N4 & N5 & N6) Hop Hexn.
+              Hself & Ht0 & Hsi & Hdur & N1 & N2 & N3 & N4 & N5 & N6) Hexn.
   destruct (ut_iop_failure_cases _ _ _ _ _ Hexn) as [|(s1 & w & s2 & E1 & E2 & E3)]; auto.
   exfalso.
   (* the prefix *)
@@ -1372,12 +1381,8 @@ Proof.
   apply arr_info_inv2 in Ei as [Hw1 Hw2].
   (* the operand, as converted, is separate from the axis *)
   assert (Hsep : a_buf i <> b /\ w <> self /\ w < next s1 /\ a_buf i < next s1).
-  { destruct Hw as [(bw & shw & kw & dtw & dw & A & B & C & D & E & F)|[-> ->]].
-    - rewrite Hw1 in A. inversion A; subst. repeat split; auto; lia.
-    - destruct (Hop w eq_refl) as [O1 O2]. repeat split; auto.
-      + eapply O2; eauto.
-      + eapply wf_lt; eauto.
-      + apply (Hrefs w _ Hw1). destruct (a_kind i); simpl; auto. }
+  { destruct Hw as (bw & shw & kw & dtw & dw & A & B & C & D & E & F).
+    rewrite Hw1 in A. inversion A; subst. repeat split; auto; lia. }
   destruct Hsep as (S1 & S2 & S3 & S4).
   assert (Ws : w <> b) by (intro; subst w; rewrite (Same b Lb), Hs1b in Hw1; discriminate).
   assert (Bs : a_buf i <> self).
@@ -1503,7 +1508,6 @@ Qed.
 (* observable forms *)
 Lemma ut_iop_failure_atomic_snapshot sign self v s e b l :
   wf s -> typed_axis s self b ->
-  (forall x, v = PRef x -> x <> self /\ forall bl sh k, mem s x = Some (CArr bl sh k) -> bl <> b) ->
   l < next s -> snd (ut_iop sign self v s) = Exn e ->
   snapshot (fst (ut_iop sign self v s)) l = snapshot s l.
 Proof. intros. apply ext_nil_snapshot; auto. eapply ut_iop_failure_atomic; eauto. Qed.
@@ -1513,19 +1517,19 @@ Lemma ut_imul_failure_atomic_snapshot self v s e b l :
 Proof. intros. apply ext_nil_snapshot; auto. eapply ut_imul_failure_atomic; eauto. Qed.
 
 (* non-vacuity: the example axis is well-typed, its operand is separate, and both calls fail *)
-Lemma ex_ut2_typed : typed_axis ex_ut2 7 6 /\
-  (forall x, PRef 9 = PRef x -> x <> 7 /\ forall bl sh k, mem ex_ut2 x = Some (CArr bl sh k) -> bl <> 6).
+Lemma ex_ut2_typed : typed_axis ex_ut2 7 6.
 Proof.
-  split.
   - exists [3], 1000000000%Z, 1, 3, 5, 0, 2, 4, 0%Z, 1000000000%Z, 3000000000%Z, 1000000000%Z, 1000000000%Z, 1000000000%Z.
     split; [reflexivity|].
     split; [exists [], (KTime 1000000000), I64; repeat split|].
     split; [exists [], (KTime 1000000000), I64; repeat split|].
     split; [exists [], (KTime 1000000000), I64; repeat split|].
     repeat split; discriminate.
-  - intros x Hx. inversion Hx; subst x. split; [discriminate|].
-    intros bl sh k Hm. vm_compute in Hm. inversion Hm. discriminate.
 Qed.
+(* `u += u`: the axis as its own operand (a private copy is taken): applied, samples doubled *)
+Lemma ex_ut_iadd_self :
+  snd (ut_iop 1 7 (PRef 7) ex_ut) = Ok tt /\ snapshot (fst (ut_iop 1 7 (PRef 7) ex_ut)) 7 <> snapshot ex_ut 7.
+Proof. split; vm_compute; [reflexivity|discriminate]. Qed.
 
 (* ------------------------------------------------------------------ objects derived through numpy *)
 Lemma np_derive_pure g x : pure (np_derive g x).
